@@ -467,7 +467,10 @@ fn if_helper<'a, 'b: 'a>(w: &mut Vec<u8>,
 			w.write_i16(branch)?;
 		} else {
 			// +1 for the opcode, +2 for the branch
-			let branch = compute_signed_offset(opcode_pos + 1 + 2, target);
+			// (a method in which this does not fit is too large anyway: fail like everywhere else instead of overflowing)
+			let goto_w_pos = opcode_pos.checked_add(1 + 2)
+				.with_context(|| anyhow!("cannot write code: code size exceeded u16::MAX: {}", opcode_pos as usize + 1 + 2))?;
+			let branch = compute_signed_offset(goto_w_pos, target);
 
 			w.write_u8(opposite_opcode)?;
 			// target the instruction after the GOTO_W
